@@ -494,6 +494,10 @@ pub fn generate(prop: &str, tier: &str, seed: u64, out: &mut impl Write) {
             emit(&[], out, r);
             for fc in 0..=255u8 { emit(&[fc], out, r); emit(&[0x11, fc], out, r); emit(&[0, 1, 0, 0, 0, 6, 9, fc], out, r); }
             for len in 0..=40usize { for _ in 0..scale(tier, 4, 40) { let b = r.bytes(len); emit(&b, out, r); } }
+            if tier == "thorough" {
+                // small-scope exhaustive: every byte string of length 2 through every decoding entry point
+                for a in 0..=255u8 { for b in 0..=255u8 { emit(&[a, b], out, r); } }
+            }
             // every prefix length of TCP 0x0F/0x10/0x17 requests and of 0x18 responses
             for fc in [0x0Fu8, 0x10, 0x17, 0x18, 0x01, 0x0C] {
                 let mut f = vec![0, 1, 0, 0, 0, 9, 0x11, fc]; f.extend(r.bytes(14));
